@@ -80,6 +80,17 @@ def w_items(uexprs, rnd, thorough):
                 pre = "struct U : decltype(%s) {}; using R = %s; using P = au::QuantityPoint<U, R>;\nvoid take(P);\n" % (ue, r)
                 items.append(witness.Item("ptzero:%s/%s/%s" % (nm, r, ue), pre + "void w() { %s }" % code, "reject", None,
                                           dict(desc="ZERO where a quantity point is required: %s (U=%s, R=%s)" % (code, ue, r))))
+            # the same question asked of the type system (traits, SFINAE, unevaluated operands): "not
+            # accepted" must be visible to overload resolution, not only to a body's static_assert
+            tr = ("struct U : decltype(%s) {}; using R = %s; using P = au::QuantityPoint<U, R>; using Z = au::Zero;\nvoid take(P);\n" % (ue, r) +
+                  "template <class A, class B, class = void> struct CanEq : std::false_type {}; template <class A, class B> struct CanEq<A, B, decltype(void(std::declval<A>() == std::declval<B>()))> : std::true_type {};\n"
+                  "template <class A, class B, class = void> struct CanLt : std::false_type {}; template <class A, class B> struct CanLt<A, B, decltype(void(std::declval<A>() < std::declval<B>()))> : std::true_type {};\n"
+                  "template <class A, class B, class = void> struct CanSub : std::false_type {}; template <class A, class B> struct CanSub<A, B, decltype(void(std::declval<A>() - std::declval<B>()))> : std::true_type {};\n"
+                  "template <class A, class = void> struct CanTake : std::false_type {}; template <class A> struct CanTake<A, decltype(void(take(std::declval<A>())))> : std::true_type {};\n"
+                  "static_assert(!std::is_constructible<P, Z>::value && !std::is_constructible<P, const Z &>::value && !std::is_convertible<Z, P>::value && !std::is_assignable<P &, Z>::value, \"traits: a point is not made from ZERO\");\n"
+                  "static_assert(!CanEq<P, Z>::value && !CanEq<Z, P>::value && !CanLt<P, Z>::value && !CanLt<Z, P>::value && !CanSub<Z, P>::value && !CanTake<Z>::value, \"SFINAE: comparisons, ZERO - p, a call with ZERO\");\n"
+                  "static_assert(CanEq<P, P>::value && CanLt<P, P>::value && CanSub<P, P>::value && CanTake<P>::value && std::is_constructible<P, P>::value && std::is_constructible<au::Quantity<U, R>, Z>::value, \"controls\");")
+            items.append(witness.Item("ptzero:traits/%s/%s" % (r, ue), tr, "accept", None, dict(desc="ZERO where a quantity point is required, asked through traits / SFINAE (U=%s, R=%s)" % (ue, r))))
             pre = "struct U : decltype(%s) {}; using R = %s; using P = au::QuantityPoint<U, R>;\nvoid take(P);\n" % (ue, r)
             items.append(witness.Item("ptzero:control/%s/%s" % (r, ue), pre + "void w() { P p = au::make_quantity_point<U>(R{1}); take(p); (void)(p + au::ZERO); (void)(p == p); }", "accept", None,
                                       dict(desc="control: the same programs with a point instead of ZERO compile")))
@@ -125,7 +136,7 @@ def body(ctx):
         checker_cmd="bin/check C19 --tier %s" % ctx.tier,
         trusted_base=["clang 14 / g++ 12 front ends", "clang lowering to IR; opt-14 sroa/inline/simplifycfg", "vlib/dag.py normalisation"],
         evaluations=nob + len(items), distinct_nontrivial=nob + len(items),
-        rule="IR wrapper pair per (operator form with ZERO, rep, unit) compared by DAG equality with the raw `x op R{0}`; W item per unit (11 reps) for constants; compile-fail witnesses per (form, rep, unit) for points",
+        rule="IR wrapper pair per (operator form with ZERO, rep, unit) compared by DAG equality with the raw `x op R{0}`; W item per unit (11 reps) for constants; compile-fail witnesses per (form, rep, unit) for points, and the same question asked through traits / SFINAE (is_constructible, is_convertible, is_assignable, detection of ==, <, ZERO - p, a call): overload resolution itself must refuse, not a body",
         samples=[sample or {}, dict(w_item=items[0].key), dict(witness=items[-2].key, code=items[-2].code)],
         exhaustive=False, ir_pairs=nob, w_items=len(items), w_mismatches=nbad, units_w=len(w_units), units_ir=len(i_units),
         configs=[c.name for c in configs], engine_stats=stats))
